@@ -294,6 +294,25 @@ fn judge_phase(
     let mut fails = Vec::new();
     let mut all_obs: Vec<Option<Vec<QObs>>> = Vec::new();
     stats(&own);
+    // "placed by forward kinematics": the link poses the robot's kinematics reports are those of
+    // the published OPW geometry behind the base transform (independent formula in the oracle)
+    for (qi, q) in case.qs.iter().enumerate() {
+        if q.iter().any(|x| x.abs() > 50.0) {
+            continue;
+        }
+        let reported = robot.kinematics.forward_with_joint_poses(q);
+        let (dt, dr) = oracle::placement_error(&case.cell, &reported, q);
+        if dt > 1e-9 || dr > 1e-8 {
+            fails.push(Fail {
+                clause: "p:link-placement".into(),
+                signature: "C10/link-placement".into(),
+                detail: format!("posture #{qi}: the link poses used for placing the bodies deviate from forward kinematics of the OPW geometry by {dt:.3e} m / {dr:.3e} rad"),
+                q: qi,
+                cfgs: vec![0],
+            });
+            break;
+        }
+    }
     for (ci, cfg) in case.cfgs.iter().enumerate() {
         let out = execute(robot, case, cfg);
         observe(ci, &out);
